@@ -78,6 +78,13 @@ func VerifC01() { c01run(false) }
 // key, two execution cores), explored with a higher preemption bound.
 func VerifC01Preempt() { c01run(true) }
 
+// VerifC01Three: three transactions in the shape writer(D) by sponsor 0; reader(D) by sponsor 0 (so it also writes the
+// balance key owned by the same earlier transaction); writer/remover(D) by sponsor 1 — the third must wait for the
+// second although the second only reads D. Two cores, preemption bound 1.
+func VerifC01Three() { c01three = true; defer func() { c01three = false }(); c01run(true) }
+
+var c01three bool
+
 func c01run(focused bool) {
 	ctx := context.Background()
 	narrow := false // quick tier of the focused harness: tx0 inserts, tx1 only reads, distinct sponsors, one fetch worker
@@ -85,6 +92,9 @@ func c01run(focused bool) {
 		narrow = verifParam("narrow", 1, 0) == 1
 	}
 	nTxs := verifParam("txs", 2, 2)
+	if c01three {
+		nTxs = 3
+	}
 	maxOps := verifParam("opsPerAction", 1, 1)
 	parent := hIm{map[string][]byte{}}
 	refHas, refVal := false, byte(0)
@@ -103,7 +113,9 @@ func c01run(focused bool) {
 	var reads [c01MaxTxs][c01MaxOps]int
 	var sponsor [c01MaxTxs]int
 	for i := 0; i < nTxs; i++ {
-		if i > 0 && narrow {
+		if c01three {
+			sponsor[i] = i / 2 // 0, 0, 1
+		} else if i > 0 && narrow {
 			sponsor[i] = 1
 		} else if i > 0 {
 			sponsor[i] = verifChoose("sponsor", 2) // same sponsor as tx 0 (conflict on the balance key) or another one
@@ -112,7 +124,15 @@ func c01run(focused bool) {
 		for j := 0; j < c01MaxOps; j++ {
 			reads[i][j] = -2
 		}
-		if focused && i == 0 {
+		if c01three && i == 1 {
+			a.perm = state.Read
+			a.nops = 1
+			a.ops[0] = 0
+		} else if c01three && i == 2 {
+			a.perm = state.All
+			a.nops = 1
+			a.ops[0] = 1 + verifChoose("op", 2)
+		} else if focused && i == 0 {
 			a.perm = state.All
 			a.nops = 1
 			a.ops[0] = 1
